@@ -45,3 +45,52 @@ def run_bounded(prop, native_check, tier, seed, obligation, extra_assumptions=()
     nat = D.run_native(binary, native_check, tier, seed, extra=extra_args, env=env)
     add_native_violations(vd, nat, obligation)
     return vd.finish(evidence_from_native(nat, extra_assumptions))
+
+
+# ------------------------------------------------------------------ mixed: Verus units + bounded natives
+
+def run_units(vd, units):
+    """Verify the given (unit, functions|None) list concurrently. Returns (covs, failed obligations)."""
+    import concurrent.futures as cf
+    from .. import common as C
+    covs, failed = [], {}
+    with cf.ThreadPoolExecutor(max_workers=max(1, len(units))) as pool:
+        futs = [pool.submit(D.run_det_unit, C.Ctx(), u, set(f) if f else None) for (u, f) in units]
+        for fut in futs:
+            cov, f, undec = fut.result()
+            covs.append(cov)
+            failed.update(f)
+            for u in undec:
+                vd.add_undecided(u)
+    return covs, failed
+
+
+def mixed_evidence(ev, covs, bounded_part, trust, tier=None, units=None, vd=None):
+    """Turn a bounded evidence record into a mixed one (level `other`): the Verus part is reported with its
+    obligation counts, the bounded part keeps its own keys and its label."""
+    from .. import common as C
+    cov = ev["coverage"]
+    m = D.merge_cov(covs)
+    cov["obligations"] = m["obligations"]
+    cov["discharged"] = m["discharged"]
+    cov["solver_ms"] = m["solver_ms"]
+    cov["units"] = m["units"]
+    cov["verus_checker_cmd"] = "; ".join(c.get("checker_cmd") or "" for c in covs)
+    cov["functions_under_contract"] = sorted(set(sum([c.get("functions_under_contract", []) for c in covs], [])))
+    cov["functions_bounded_only"] = list(bounded_part)
+    cov["trusted_base"] = list(D.STANDING_TRUST) + list(trust)
+    cov["explanation"] = ("mixed: %d Verus obligations over %d real functions (all inputs; units %s), plus the bounded executable-contract check "
+                          "(counterexample engine for the functions under contract, stand-in -- labelled bounded, never counted in `discharged` -- for: %s)" % (
+                              cov["obligations"], len(cov["functions_under_contract"]), ", ".join(c.get("unit", "?") for c in covs), "; ".join(bounded_part) or "nothing"))
+    if tier == "thorough" and units:
+        vac = []
+        for unit, _f in units:
+            pr = D.run_vacuity_probes(C.Ctx(), unit)
+            vac.append(pr)
+            if pr["vacuous"] and vd is not None:
+                vd.add_undecided("vacuity: probes that should fail verify in unit %s: %s" % (unit, pr["vacuous"][:5]))
+        cov["vacuity_probes"] = {"expected_to_fail": sum(p["expected"] for p in vac), "failed_as_expected": sum(p["failed_as_expected"] for p in vac),
+                                 "per_unit": {p["unit"]: [p["expected"], p["failed_as_expected"]] for p in vac}}
+    ev["level"] = "other" if cov["obligations"] > 0 else "exploration"
+    ev["assumptions"] = list(ev.get("assumptions", [])) + ["Verus part: " + t for t in trust]
+    return ev
